@@ -15,6 +15,21 @@ STEER = ("Re-read the property's 'Statement' and 'Quantified over' word by word 
  "only one caller's assumption breaks. It must be a genuine violation of the property as stated, build cleanly, pass the existing suite, "
  "and be invisible on the common path. Also put a small file SEED/go.mod containing `module seedcopy` next to the copied test so that "
  "`go test ./...` from the repository root does not compile the copy.")
+STEER10 = ("Re-read the property's 'Statement' and 'Quantified over' word by word and list (in NOTES.md) every clause and every "
+ "quantified dimension; then pick the clause or dimension you judge LEAST likely to be exercised by an automated randomized checker "
+ "built from that text and break exactly that, with a realistic-looking edit. This round the breakage must be reachable through the "
+ "entry points the real programs use (packets arriving on faces, management commands, the engine / object / store / codec API called the "
+ "way the repository's own daemons and tools call it, configuration values) - not only by calling an internal helper with arguments no "
+ "caller passes; say in NOTES.md through which entry point it is reached. Prefer a silently wrong result (wrong packet, wrong table "
+ "content, wrong answer, lost or duplicated item) over a crash. Good hunting grounds: a second instance of something usually used once "
+ "(two listeners, two engines, two stores, two threads); a value that is legal but rarely chosen (zero, maximum, equal to a neighbour); "
+ "an operation repeated or undone (register twice, remove then re-add, restart); state carried over between two consecutive operations "
+ "(a buffer, a cached pointer, a counter) ; a comparison that is right for the common type / length / sign and wrong for another. It "
+ "must be a genuine violation of the property as stated, build cleanly, pass the existing suite, and be invisible on the common path. "
+ "Also put a small file SEED/go.mod containing `module seedcopy` next to the copied test so that `go test ./...` from the repository "
+ "root does not compile the copy.")
+if int(n) >= 10:
+    STEER = STEER10
 for i in range(1, 21):
     p = 'C%02d' % i
     base = open('/tmp/seed/%s.prompt8.txt' % p).read()
